@@ -166,14 +166,16 @@ func allTexts(vocab []string, maxLines int) [][]byte {
 	return out
 }
 
-var diffish = []string{"@@ -1 +1 @@", "@@ -1,2 +1,2 @@", "--- a", "+++ b", "\\ No newline at end of file", "-", "+", " ", "-x", "+x", " x", "diff a b", "\\", "", "x\r", "\x00", "--", "++"}
+var diffish = []string{"@@ -1 +1 @@", "@@ -1,2 +1,2 @@", "--- a", "+++ b", "\\ No newline at end of file", "-", "+", " ", "-x", "+x", " x", "diff a b", "\\", "", "x\r", "\x00", "--", "++",
+	// lines that mean something to a formatter
+	"%", "100%", "%d items", "%%", "%s%v%!", "%!(EXTRA string=x)", "% x", "%[1]d", "%*d", "50% of %s", "\\n", "\t", "{{.}}", "$1 ${x}"}
 
 func randomText(rng *rand.Rand) []byte {
 	n := rng.Intn(40)
 	if rng.Intn(20) == 0 {
 		n = 200 + rng.Intn(1800)
 	}
-	mode := rng.Intn(4)
+	mode := rng.Intn(5)
 	vocabN := 2 + rng.Intn(6)
 	var ls []string
 	for i := 0; i < n; i++ {
@@ -184,6 +186,23 @@ func randomText(rng *rand.Rand) []byte {
 			ls = append(ls, fmt.Sprintf("u%d", rng.Intn(n*4+1)))
 		case 2:
 			ls = append(ls, diffish[rng.Intn(len(diffish))])
+		case 4: // lines of arbitrary bytes (everything but newline), a few of them repeated
+			if len(ls) > 0 && rng.Intn(4) == 0 {
+				ls = append(ls, ls[rng.Intn(len(ls))])
+				break
+			}
+			b := make([]byte, rng.Intn(24))
+			for j := range b {
+				b[j] = byte(rng.Intn(256))
+				if rng.Intn(3) == 0 {
+					special := "%\\ \t-+@\r\x00%s"
+					b[j] = special[rng.Intn(len(special))]
+				}
+				if b[j] == '\n' {
+					b[j] = '%'
+				}
+			}
+			ls = append(ls, string(b))
 		default:
 			if rng.Intn(3) == 0 {
 				ls = append(ls, diffish[rng.Intn(len(diffish))])
@@ -239,7 +258,7 @@ func main() {
 			r.DistinctBulk(2)
 			return
 		}
-		r.Rule("pairs of texts: (1) all pairs of texts of up to N lines over {a,b,empty line} with and without final newline; (2) the same short texts around 0..8 common context lines (unique or repeated) to exercise hunk splitting; (3) random long texts (small vocabularies, unique lines, diff-syntax look-alikes, CR/NUL) and their line-edited variants. Non-trivial = the two texts differ (a diff is produced, parsed and applied both ways).")
+		r.Rule("pairs of texts: (1) all pairs of texts of up to N lines over {a,b,empty line} with and without final newline; (2) the same short texts around 0..8 common context lines (unique or repeated) to exercise hunk splitting; (3) random long texts (small vocabularies, unique lines, diff-syntax and format-string look-alikes, CR/NUL, lines of arbitrary bytes) and their line-edited variants. Non-trivial = the two texts differ (a diff is produced, parsed and applied both ways).")
 		r.Assume("the strict parser/applier in checks/c08/udiff.go defines well-formedness; GNU patch 2.7 is a second applier on a tame alphabet")
 		W := runtime.NumCPU()
 		texts := allTexts([]string{"a", "b", ""}, r.Pick(4, 5))
